@@ -1054,6 +1054,24 @@ class Desugar(ast.NodeTransformer):
             return ast.copy_location(ast.Attribute(value=node.args[0], attr=node.args[1].value, ctx=ast.Load()), node)
         return node
 
+    def visit_Compare(self, node: ast.Compare):
+        node = self.generic_visit(node)
+        if len(node.ops) == 1 and isinstance(node.ops[0], (ast.Eq, ast.NotEq)) and isinstance(node.left, ast.Tuple) and isinstance(node.comparators[0], ast.Tuple) and \
+                len(node.left.elts) == len(node.comparators[0].elts) >= 2 and all(_simple(x) for x in node.left.elts + node.comparators[0].elts) and \
+                not any(isinstance(x, ast.Starred) for x in node.left.elts + node.comparators[0].elts):
+            # (a, b) == (c, d)  ->  a == c and b == d        (a, b) != (c, d)  ->  a != c or b != d
+            eq = isinstance(node.ops[0], ast.Eq)
+            parts = [ast.Compare(left=l_, ops=[ast.Eq() if eq else ast.NotEq()], comparators=[r_]) for l_, r_ in zip(node.left.elts, node.comparators[0].elts)]
+            new = ast.BoolOp(op=ast.And() if eq else ast.Or(), values=parts)
+            ast.copy_location(new, node)
+            for x in ast.walk(new):
+                if isinstance(x, ast.expr) and not hasattr(x, "lineno"):
+                    ast.copy_location(x, node)
+            ast.fix_missing_locations(new)
+            self.count["tuple-compare"] = self.count.get("tuple-compare", 0) + 1
+            return new
+        return node
+
     def visit_JoinedStr(self, node: ast.JoinedStr):
         node = self.generic_visit(node)
         vals: List[ast.expr] = []
